@@ -14,6 +14,7 @@ void set_oid (string s) { }
 
 string str (int n, string c) { return repeat_string (c, n); }
 mapping mk (int from, int n) { mapping m = ([ ]); int i; for (i = 0; i < n; i++) m[from + i] = 1; return m; }
+mapping mkid (int from, int n) { mapping m = ([ ]); int i; for (i = 0; i < n; i++) m[from + i] = from + i; return m; }
 
 int sz_allocate (int n) { return sizeof (allocate (n)); }
 int sz_aggregate (int n) {
@@ -91,6 +92,7 @@ int sz_sprintf_pad (int w, int n) { return strlen (sprintf ("%*s", w, str (n, "x
 // count bookkeeping across partially applied operations: a sequence of inserts and in-place `m += m2` on one
 // mapping, every operation inside catch; returns "<k|e per op>:<sizeof (m)>/<nodes reached by iteration>"
 // ops (comma separated):  i<key><n|o>   insert key (new / old)      a<from>:<n>:<new>   m += ([ from .. from+n-1 ])
+//                         c<lo>:<n>:<kept>  m *= ([ lo .. lo+n-1 ])     cs:<kept>  m *= m     (values are the keys)
 mapping gm;
 string mapseq (string ops) {
   string res = ""; string op; int n = 0; mixed k, v;
@@ -99,10 +101,15 @@ string mapseq (string ops) {
     mixed e;
     if (op[0] == 'i') {
       int key = to_int (op[1..<2]);
-      e = catch (gm[key] = 1);
+      e = catch (gm[key] = key);
+    } else if (op[0] == 'c') {
+      // c<lo>:<n>:<kept>  gm *= ([ lo .. lo+n-1 ])     cs:<kept>  gm *= gm   (every value of gm is its key)
+      string *w = explode (op[1..], ":");
+      if (w[0] == "s") e = catch (gm *= gm);
+      else { mapping m2 = mkid (to_int (w[0]), to_int (w[1])); e = catch (gm *= m2); }   // (identity values: the kept nodes keep value = key)
     } else {
       string *w = explode (op[1..], ":");
-      mapping m2 = mk (to_int (w[0]), to_int (w[1]));
+      mapping m2 = mkid (to_int (w[0]), to_int (w[1]));
       e = catch (gm += m2);
     }
     res += e ? "e" : "k";
@@ -114,3 +121,38 @@ int keep_key_lt (int k, int v, int kept) { return k < kept; }
 int ident2 (int k, int v) { return v; }
 int sz_filter_mapping (int n, int kept) { return sizeof (filter_mapping (mk (0, n), "keep_key_lt", this_object (), kept)); }
 int sz_map_mapping (int n) { return sizeof (map_mapping (mk (0, n), "ident2", this_object ())); }
+
+// ---- round 4: the efuns that were on the NOT ANALYSED list, and mapping * mapping
+// what sizeof () says against what an iteration finds (a `mismatch` line is a verdict of the oracle)
+int cnt (mapping m) { int n = 0; mixed k, v; foreach (k, v in m) n++; return n; }
+int chk (mapping m) {
+  int n;
+  if (catch (n = cnt (m))) return sizeof (m);   // (the iteration needs an array of the keys: not possible above MaxArraySize)
+  if (n != sizeof (m)) VL ("mismatch sizeof=" + sizeof (m) + " nodes=" + n);
+  return sizeof (m);
+}
+// a = ([ 0:0 .. c1-1:c1-1 ]), b has the keys c1-common .. c1-common+c2-1: a * b keeps the nodes of a whose VALUE is a key of b
+int sz_map_compose (int c1, int c2, int common) { mapping a = mkid (0, c1), b = mk (c1 - common, c2); return chk (a * b); }
+int sz_map_compose_eq (int c1, int c2, int common) { mapping a = mkid (0, c1), b = mk (c1 - common, c2); a *= b; return chk (a); }
+// save_variable: the text of ({ 0, ... }) is "({" + "0," * n + "})"; of a string: quotes + one backslash per quote character
+int sz_save_array (int n) { return strlen (save_variable (allocate (n))); }
+int sz_save_string (int n, int esc) { return strlen (save_variable (str (n, esc ? "\"" : "x"))); }
+int sz_save_mapping (int n) { return strlen (save_variable (mk (0, n < 10 ? n : 10))); }
+// d arrays inside each other (svalue_save_size / save_svalue / copy () recurse once per level)
+mixed nest (int d) { mixed a = ({ }); int i; for (i = 1; i < d; i++) a = ({ a }); return a; }
+int sz_save_nested (int d) { return strlen (save_variable (nest (d))); }
+int sz_copy_nested (int d) { mixed a = copy (nest (d)); int n = 1; while (sizeof (a)) { a = a[0]; n++; } return n; }
+int sz_restore_nested (int d) { mixed a = restore_variable (str (d - 1, "({") + "({})" + str (d - 1, ",})")); int n = 1; while (sizeof (a)) { a = a[0]; n++; } return n; }
+int sz_restore_array (int n) { return sizeof (restore_variable ("({" + str (n, "0,") + "})")); }
+int sz_restore_mapping (int n) { string s = "(["; int i; for (i = 0; i < n; i++) s += i + ":1,"; return chk (restore_variable (s + "])")); }
+int sz_regexp (int n, int matched, int flag) {
+  string *a = allocate (n); int i, m = sizeof (a);
+  for (i = 0; i < m; i++) a[i] = i < matched ? "a" : "b";
+  return sizeof (regexp (a, "a", flag));
+}
+int sz_reg_assoc (int m) { mixed *r = reg_assoc (str (m, "a"), ({ "a" }), ({ 1 })); return sizeof (r[0]) == sizeof (r[1]) ? sizeof (r[0]) : -2; }
+// replace_string with a one character pattern and a longer replacement (the `plen == 1` scan): "c" * a + "a" * b, "a" -> r characters
+int sz_replace1 (int a, int b, int r) {
+  string s = str (a, "c") + str (b, "a"); mixed x = replace_string (s, "a", str (r, "x"));
+  return stringp (x) ? strlen (x) : -1;
+}
